@@ -16,6 +16,7 @@ type flowIndex struct {
 	fieldStores map[string][]*ssa.Store             // "Type.field" → stores
 	closureOf   map[*ssa.Function]*ssa.MakeClosure  // anon fn → its MakeClosure
 	allocStores map[*ssa.Alloc][]*ssa.Store         // stores directly to an alloc
+	elemStores  map[*ssa.Alloc][]*ssa.Store         // stores to elements of a local array (varargs etc.)
 	globalStore map[*ssa.Global][]*ssa.Store
 }
 
@@ -28,6 +29,7 @@ func (u *Unit) flow() *flowIndex {
 		fieldStores: map[string][]*ssa.Store{},
 		closureOf:   map[*ssa.Function]*ssa.MakeClosure{},
 		allocStores: map[*ssa.Alloc][]*ssa.Store{},
+		elemStores:  map[*ssa.Alloc][]*ssa.Store{},
 		globalStore: map[*ssa.Global][]*ssa.Store{},
 	}
 	for _, fn := range u.SrcFuncs() {
@@ -48,6 +50,10 @@ func (u *Unit) flow() *flowIndex {
 				switch a := x.Addr.(type) {
 				case *ssa.FieldAddr:
 					fi.fieldStores[fieldKey(a.X.Type(), a.Field)] = append(fi.fieldStores[fieldKey(a.X.Type(), a.Field)], x)
+				case *ssa.IndexAddr:
+					if al, ok := a.X.(*ssa.Alloc); ok {
+						fi.elemStores[al] = append(fi.elemStores[al], x)
+					}
 				case *ssa.Alloc:
 					fi.allocStores[a] = append(fi.allocStores[a], x)
 				case *ssa.Global:
@@ -110,8 +116,9 @@ type OriginOpts struct {
 	// Through lists callee names whose result is treated as derived from the
 	// given argument indices (data passes through).
 	Through map[string][]int
-	// StopAtCall: do not look through any call (default: calls are roots
-	// unless listed in Through).
+	// Into: also walk into the returned values of root-package callees and
+	// through library formatting helpers (fmt.Sprint*, hex, base64, String()).
+	Into bool
 	MaxNodes int
 }
 
@@ -137,6 +144,22 @@ func (u *Unit) Origins(v ssa.Value, opt *OriginOpts) []Origin {
 		if !outSeen[k] {
 			outSeen[k] = true
 			out = append(out, Origin{kind, desc, val})
+		}
+	}
+	// a buffer's content comes from whatever fills it: calls that receive the
+	// buffer (or a slice of it) are reported as "fill" origins
+	var addFills func(v ssa.Value, depth int)
+	addFills = func(v ssa.Value, depth int) {
+		if depth > 3 || v.Referrers() == nil {
+			return
+		}
+		for _, ref := range *v.Referrers() {
+			switch y := ref.(type) {
+			case ssa.CallInstruction:
+				add("fill", u.CalleeName(y.Common()), v)
+			case *ssa.Slice:
+				addFills(y, depth+1)
+			}
 		}
 	}
 	var walk func(v ssa.Value)
@@ -200,6 +223,26 @@ func (u *Unit) Origins(v ssa.Value, opt *OriginOpts) []Origin {
 				return
 			}
 			add("call", name, x)
+			if opt.Into {
+				if f, ok := x.Call.Value.(*ssa.Function); ok && f.Pkg == u.SPkg && f.Blocks != nil {
+					Instrs(f, func(in ssa.Instruction) {
+						if ret, ok := in.(*ssa.Return); ok {
+							for _, rv := range ret.Results {
+								walk(rv)
+							}
+						}
+					})
+				}
+				// library formatting/encoding helpers pass their arguments through
+				if strings.HasPrefix(name, "fmt.Sprint") || strings.HasPrefix(name, "encoding/hex.") || strings.HasPrefix(name, "encoding/base64.") || strings.HasSuffix(name, ").String") {
+					for _, a := range x.Call.Args {
+						walk(a)
+					}
+				}
+			}
+		case *ssa.MakeSlice:
+			add("other", "makeslice", x)
+			addFills(x, 0)
 		case *ssa.BinOp:
 			walk(x.X)
 			walk(x.Y)
@@ -302,6 +345,13 @@ func (u *Unit) Origins(v ssa.Value, opt *OriginOpts) []Origin {
 			// the address of a local whose whole value was stored: the stored values flow too
 			for _, s := range fi.allocStores[x] {
 				walk(s.Val)
+			}
+			// elements / fields stored into the local (varargs arrays, composite literals)
+			for _, s := range fi.elemStores[x] {
+				walk(s.Val)
+			}
+			if opt.Into {
+				addFills(x, 0)
 			}
 		case *ssa.MakeClosure:
 			add("other", "closure:"+u.qualName(x.Fn.(*ssa.Function)), x)
